@@ -36,6 +36,8 @@ pub struct Twin {
     pub u: Context,
     pub o: Context,
     pub mapping: ContextMappings,
+    /// plain kind: number of randomising nodes the inlined graph must contain (every inlined copy draws afresh)
+    pub expected_random: Option<usize>,
 }
 
 fn fixed_eval() -> ciphercore_base::errors::Result<SimpleEvaluator> {
@@ -56,7 +58,7 @@ pub fn compiled_twin(case: &Case) -> Result<Option<Twin>, String> {
         let c4 = prepare_context(src, cfg.clone(), fixed_eval()?, false)?;
         let u = prepare_for_mpc_evaluation(&c4.get_context(), vec![owners], vec![outs], cfg)?.get_context();
         let m = optimize_context(&u, fixed_eval()?)?;
-        Ok(Twin { u, o: m.get_context(), mapping: m.mappings.clone() })
+        Ok(Twin { u, o: m.get_context(), mapping: m.mappings.clone(), expected_random: None })
     });
     match r {
         Err(p) => Err(format!("panic: {}", p)),
@@ -68,22 +70,117 @@ pub fn compiled_twin(case: &Case) -> Result<Option<Twin>, String> {
 /// Decorate a program (single main graph, no helpers) with the things the optimiser must treat
 /// carefully: Random/PRF nodes, annotated NOPs, duplicated sub-expressions, foldable constants,
 /// dangling nodes.
-pub fn decorate(prog: &mut Prog, rng: &mut Rng) {
-    let g: &mut GraphD = prog.main_mut();
-    // types of existing steps are not known here; build to learn them
-    let types: Vec<Option<Type>> = {
-        let p = Prog { graphs: vec![g.clone()] };
-        match p.build() {
-            Ok(b) => b.nodes[0].iter().map(|n| n.get_type().ok()).collect(),
-            Err(_) => return,
-        }
+/// Helper graphs (Call targets / Iterate bodies) get a Random node added to their result, so that every
+/// inlined copy must draw afresh.
+pub fn decorate_helpers(prog: &mut Prog, rng: &mut Rng) {
+    let n = prog.graphs.len();
+    if n < 2 {
+        return;
+    }
+    let built = match prog.build() {
+        Ok(b) => b,
+        Err(_) => return,
     };
+    for gi in 0..n - 1 {
+        if !rng.chance(2, 3) {
+            continue;
+        }
+        let types: Vec<Option<Type>> = built.nodes[gi].iter().map(|x| x.get_type().ok()).collect();
+        let g = &mut prog.graphs[gi];
+        let out = g.output;
+        let is_leaf = |t: &Option<Type>| matches!(t, Some(Type::Array(_, _)) | Some(Type::Scalar(_)));
+        if is_leaf(&types[out]) {
+            // plain callee: result + Random
+            let t = types[out].clone().unwrap();
+            let base = g.steps.len();
+            g.steps.push(Step { op: Operation::Random(t), deps: vec![], gdeps: vec![] });
+            g.steps.push(Step { op: Operation::Add, deps: vec![out, base], gdeps: vec![] });
+            g.output = base + 1;
+        } else if matches!(g.steps[out].op, Operation::CreateTuple) && g.steps[out].deps.len() == 2 {
+            // iterate body (new state, output): new state + Random
+            let (ns, outv) = (g.steps[out].deps[0], g.steps[out].deps[1]);
+            if is_leaf(&types[ns]) {
+                let t = types[ns].clone().unwrap();
+                let base = g.steps.len();
+                g.steps.push(Step { op: Operation::Random(t), deps: vec![], gdeps: vec![] });
+                g.steps.push(Step { op: Operation::Add, deps: vec![ns, base], gdeps: vec![] });
+                g.steps.push(Step { op: Operation::CreateTuple, deps: vec![base + 1, if outv == ns { base + 1 } else { outv }], gdeps: vec![] });
+                g.output = base + 2;
+            }
+        }
+    }
+}
+
+/// Number of randomising nodes the fully inlined main graph must contain: every inlined copy of a body
+/// draws afresh. None if some graph carries an annotation that selects a depth-optimised iterate strategy.
+pub fn expected_random_nodes(ctx: &Context) -> Option<usize> {
+    let graphs = ctx.get_graphs();
+    let mut count = vec![0usize; graphs.len()];
+    for (gi, g) in graphs.iter().enumerate() {
+        if !g.get_annotations().ok()?.is_empty() {
+            return None;
+        }
+        let mut c = 0usize;
+        for n in g.get_nodes() {
+            let op = n.get_operation();
+            match op {
+                Operation::Call => c += count[n.get_graph_dependencies()[0].get_id() as usize],
+                Operation::Iterate => {
+                    let len = match n.get_node_dependencies()[1].get_type().ok()? {
+                        Type::Vector(l, _) => l as usize,
+                        _ => return None,
+                    };
+                    c += len * count[n.get_graph_dependencies()[0].get_id() as usize];
+                }
+                Operation::Custom(_) => return None,
+                o => {
+                    if is_rand_or_prf(&o) {
+                        c += 1;
+                    }
+                }
+            }
+        }
+        count[gi] = c;
+    }
+    let main = ctx.get_main_graph().ok()?.get_id() as usize;
+    Some(count[main])
+}
+
+pub fn decorate(prog: &mut Prog, rng: &mut Rng) {
+    // types of existing steps are not known here; build to learn them
+    let types: Vec<Option<Type>> = match prog.build() {
+        Ok(b) => b.nodes.last().map(|ns| ns.iter().map(|n| n.get_type().ok()).collect()).unwrap_or_default(),
+        Err(_) => return,
+    };
+    let g: &mut GraphD = prog.main_mut();
     let arrays: Vec<usize> = (0..types.len()).filter(|i| matches!(types[*i], Some(Type::Array(_, _)) | Some(Type::Scalar(_)))).collect();
     let mut keep: Vec<usize> = vec![g.output];
     let n_dec = 2 + rng.usize_below(6);
     for _ in 0..n_dec {
         let base = g.steps.len();
-        match rng.below(13) {
+        match rng.below(15) {
+            13 | 14 if !arrays.is_empty() => {
+                // vector of arrays turned into an array and indexed with several coordinates (meta-operation pass)
+                let a = *rng.pick(&arrays);
+                let t = types[a].clone().unwrap();
+                if let Type::Array(sh, _) = &t {
+                    let same: Vec<usize> = arrays.iter().cloned().filter(|i| types[*i].as_ref() == Some(&t)).collect();
+                    let b = *rng.pick(&same);
+                    g.steps.push(Step { op: Operation::CreateVector(t.clone()), deps: vec![a, b], gdeps: vec![] });
+                    g.steps.push(Step { op: Operation::VectorToArray, deps: vec![base], gdeps: vec![] });
+                    let mut idx = vec![rng.below(2)];
+                    let extra = rng.usize_below(sh.len() + 1);
+                    for d in sh.iter().take(extra) {
+                        idx.push(rng.below(*d));
+                    }
+                    g.steps.push(Step { op: Operation::Get(idx), deps: vec![base + 1], gdeps: vec![] });
+                    g.steps.push(Step { op: Operation::ArrayToVector, deps: vec![base + 1], gdeps: vec![] });
+                    g.steps.push(Step { op: Operation::Constant(ciphercore_base::data_types::scalar_type(ciphercore_base::data_types::UINT64), crate::vals::enc(&[rng.below(2) as u128], ciphercore_base::data_types::UINT64)), deps: vec![], gdeps: vec![] });
+                    g.steps.push(Step { op: Operation::VectorGet, deps: vec![base + 3, base + 4], gdeps: vec![] });
+                    keep.push(base + 2);
+                    keep.push(base + 5);
+                }
+            }
             7 => {
                 // both operand orders of a non-commutative product of non-constant matrices
                 let st = *rng.pick(&[ciphercore_base::data_types::UINT8, ciphercore_base::data_types::INT32, ciphercore_base::data_types::UINT64]);
@@ -274,10 +371,11 @@ pub fn plain_twin(case: &Case) -> Result<Option<Twin>, String> {
     let src = built.context.clone();
     let cfg = case.inline.config();
     let r = guarded(move || -> ciphercore_base::errors::Result<Twin> {
+        let expected_random = expected_random_nodes(&src);
         let inst = ciphercore_base::custom_ops::run_instantiation_pass(src)?.get_context();
         let u = ciphercore_base::inline::inline_ops::inline_operations(&inst, cfg)?.get_context();
         let m = optimize_context(&u, fixed_eval()?)?;
-        Ok(Twin { u, o: m.get_context(), mapping: m.mappings.clone() })
+        Ok(Twin { u, o: m.get_context(), mapping: m.mappings.clone(), expected_random })
     });
     match r {
         Err(p) => Err(format!("panic: {}", p)),
@@ -500,11 +598,21 @@ pub fn c06_static(t: &Twin, tv: &TwinViews) -> Option<Violation> {
     None
 }
 
-fn pv_eq(a: &Option<PV>, b: &Option<PV>) -> bool {
+/// Per-party comparison of a mapped pair. Poison ("this party does not hold this", or an evaluation error on junk)
+/// is not a value: how far it spreads depends on the shape of the graph (a Zip of a poisoned column is poisoned as
+/// a whole, the element the optimiser resolves it to is not), so a pair is compared only when both sides are fully
+/// defined. Returns None when not comparable.
+fn pv_eq(a: &Option<PV>, b: &Option<PV>) -> Option<bool> {
     match (a, b) {
-        (Some(x), Some(y)) => x.same(y),
-        (None, None) => true,
-        _ => false,
+        (Some(x), Some(y)) => {
+            if x.has_poison() || y.has_poison() {
+                None
+            } else {
+                Some(x.same(y))
+            }
+        }
+        (None, None) => Some(true),
+        _ => Some(false),
     }
 }
 
@@ -559,7 +667,11 @@ pub fn c06_dynamic(tv: &TwinViews, out: &TwinRunOut, stats: &mut Stats) -> Optio
     for (i, m) in tv.map.iter().enumerate() {
         if let Some(m) = m {
             for p in 0..np {
-                if !pv_eq(&out.ru.values[p][i], &out.ro.values[p][*m]) {
+                let cmp = pv_eq(&out.ru.values[p][i], &out.ro.values[p][*m]);
+                if cmp.is_none() {
+                    stats.probe("c06:mapped-pairs-not-comparable(poison)", 1);
+                }
+                if cmp == Some(false) {
                     return Some(Violation {
                         class: "mapped-node-value-differs".into(),
                         detail: format!(
@@ -573,6 +685,9 @@ pub fn c06_dynamic(tv: &TwinViews, out: &TwinRunOut, stats: &mut Stats) -> Optio
         }
     }
     for p in 0..np {
+        if out.ru.out[p].has_poison() || out.ro.out[p].has_poison() {
+            continue;
+        }
         if !out.ru.out[p].same(&out.ro.out[p]) {
             return Some(Violation { class: "output-differs".into(), detail: format!("party {}: outputs of the unoptimised and optimised graphs differ", p) });
         }
@@ -581,8 +696,8 @@ pub fn c06_dynamic(tv: &TwinViews, out: &TwinRunOut, stats: &mut Stats) -> Optio
     // payload). A marker that disappears because the output no longer depends on its node (e.g. a tuple getter was
     // resolved) is legitimate; a marker that disappears although it is needed shows up as a value difference above.
     let cone_o = cone_of(&tv.go, tv.go.output);
-    let su: BTreeSet<(usize, usize, u64)> = out.ru.msgs.iter().map(|m| (m.from, m.to, m.payload.hash())).collect();
-    let so: BTreeSet<(usize, usize, u64)> = out.ro.msgs.iter().filter(|m| cone_o.contains(&m.node)).map(|m| (m.from, m.to, m.payload.hash())).collect();
+    let su: BTreeSet<(usize, usize, u64)> = out.ru.msgs.iter().filter(|m| !m.payload.has_poison()).map(|m| (m.from, m.to, m.payload.hash())).collect();
+    let so: BTreeSet<(usize, usize, u64)> = out.ro.msgs.iter().filter(|m| cone_o.contains(&m.node) && !m.payload.has_poison()).map(|m| (m.from, m.to, m.payload.hash())).collect();
     if !so.is_subset(&su) {
         let extra: Vec<_> = so.difference(&su).take(3).collect();
         if std::env::var("VERIF_DEBUG").is_ok() {
@@ -690,6 +805,19 @@ pub fn check_case(case: &Case, kind: &str, run_seed: u64, which: &str, stats: &m
     stats.graph_shapes.insert(tv.gu.shape_hash());
     stats.probe("nodes-removed-by-optimiser", (tv.gu.nodes.len() - tv.go.nodes.len().min(tv.gu.nodes.len())) as u64);
     if which == "C04" || which == "both" {
+        if let Some(exp) = twin.expected_random {
+            let got = tv.gu.nodes.iter().filter(|n| is_rand_or_prf(&n.op)).count();
+            stats.probe("c04:inlined-random-node-counts-checked", 1);
+            if exp > 0 {
+                stats.probe("c04:inlined-bodies-with-randomness", 1);
+            }
+            if got != exp {
+                return Ok(Some(Violation {
+                    class: "inlined-randomness-merged".into(),
+                    detail: format!("the fully inlined graph contains {} randomising/PRF nodes, but its calls and iterations instantiate {} of them (every inlined copy of a body must draw afresh)", got, exp),
+                }));
+            }
+        }
         if let Some(v) = c04_static(&tv, kind == "compiled", stats) {
             return Ok(Some(v));
         }
@@ -776,7 +904,10 @@ pub fn gen_opt_case(rng: &mut Rng, idx: usize, heavy: bool) -> (Case, &'static s
     loop {
         let mut cfg = GenCfg::swarm(rng);
         if kind == "plain" {
-            cfg.allow_helpers = rng.chance(1, 4);
+            cfg.allow_helpers = rng.chance(if heavy { 2 } else { 1 }, 4);
+            if cfg.allow_helpers {
+                cfg.fam[9] = cfg.fam[9].max(3);
+            }
         }
         if heavy && kind == "compiled" {
             // protocols that draw several masks from one key / inline bodies many times
@@ -787,6 +918,7 @@ pub fn gen_opt_case(rng: &mut Rng, idx: usize, heavy: bool) -> (Case, &'static s
         }
         if let Some(mut case) = gen_case(&cfg, rng) {
             if kind == "plain" {
+                decorate_helpers(&mut case.prog, rng);
                 decorate(&mut case.prog, rng);
                 case.owners = vec![Owner::Public; case.owners.len()];
                 case.outputs = vec![0, 1, 2];
